@@ -308,6 +308,12 @@ func runThrottle(sc *Scenario) (res Result) {
 			mu.Unlock()
 			cancel()
 		}
+		if ctx.Err() != nil && cancelledAt < 0 {
+			// a deadline context expired by itself at the same instant and the consumer's end was seen first
+			mu.Lock()
+			cancelledAt = time.Duration(sc.T.CancelAt) * unit
+			mu.Unlock()
+		}
 	}
 	timedOut := false
 	select {
